@@ -196,6 +196,26 @@ class _Walker:
             return
         if isinstance(o, (list, tuple, dict)):
             raise TypeError(f'canon: unsupported container subclass {t}')
+        import weakref
+        if isinstance(o, (weakref.WeakKeyDictionary, weakref.WeakValueDictionary)):
+            # weak containers (a change of the library may introduce them): what is alive now, in insertion order
+            out.append('{w')
+            for k, v in list(o.items()):
+                self.walk(k)
+                out.append(':')
+                self.walk(v)
+            out.append('}')
+            return
+        if isinstance(o, weakref.WeakSet):
+            out.append('{ws')
+            for x in sorted(list(o), key=repr):
+                self.walk(x)
+            out.append('}')
+            return
+        if isinstance(o, weakref.ReferenceType):
+            out.append('wr')
+            self.walk(o())
+            return
         # generic object
         self.seen[oid] = self.n
         out.append('<%s#%d' % (t.__name__, self.n))
